@@ -78,6 +78,10 @@ def tasks(tier, seed):
             ts.append({"id": f"run[{cls},N=3,k=1]", "fn": "run_task",
                        "args": {"cls_name": cls, "ctype": ct, "cone": "theta60", "W": cs["theta60"].tolist(), "N": 3,
                                 "steps": 1, "batch": 1, "prop": "C06", "tier": tier}, "weight": 300})
+    for cls, ct in (("PaVeBa", None), ("Auer", None)):
+        ts.append({"id": f"run[{cls},sparse S={{8,1}}]", "fn": "run_task",
+                   "args": {"cls_name": cls, "ctype": ct, "cone": "orthant2", "W": None if cls == "Auer" else cs["orthant2"].tolist(),
+                            "N": 9, "steps": 2, "batch": 1, "prop": "C06", "tier": tier, "initial_S": [8, 1]}, "weight": 100})
     ts.append({"id": "config_sweep", "fn": "sweep_task", "args": {"tier": tier}, "weight": 500})
     return ts
 
